@@ -59,7 +59,7 @@ func (p *Person) Copy() *Person {
 		Contacts: []*Person{},
 	}
 	for _, op := range p.Contacts {
-		op.Contacts = append(op.Contacts, op.Copy())
+		np.Contacts = append(np.Contacts, op.Copy())
 	}
 	return np
 }
